@@ -92,7 +92,7 @@ def main(argv=None):
                 print('ERROR contract %s has no cases' % t)
                 return 3
             for i in range(len(c.cases)):
-                tasks.append((t, i, {'seed': seed, 'n_random': 300 if tier == 'quick' else 3000,
+                tasks.append((t, i, {'seed': seed, 'n_random': 300 if tier == 'quick' else 3000, 'replay_budget_s': 30 if tier == 'quick' else 600,
                                      'only': c.only.get(prop), 'prop': prop, 'crosscheck': 2 if tier == 'quick' else 25,
                                      'known': [f.get('obligation', '') for f in findings if f.get('property') == prop]}))
     lem = [(n, p, f) for (n, p, f) in lemmas if prop in p and a.only in n]
